@@ -235,6 +235,7 @@ type EnvConfig struct {
 	Height    uint64
 	Timestamp int64 // parent state timestamp (ms)
 	FeeState  []byte // nil = min prices
+	Funded    map[codec.Address]uint64 // extra funded accounts (e.g. real-key addresses)
 }
 
 // DefaultRules returns default rules with large block limits so that units never bind unless
@@ -265,6 +266,9 @@ func NewEnv(c EnvConfig) *Env {
 		if b > 0 {
 			must(e.BH.AddBalance(Ctx, Addr(i), store, b))
 		}
+	}
+	for a, b := range c.Funded {
+		must(e.BH.AddBalance(Ctx, a, store, b))
 	}
 	for k, v := range c.State {
 		store.m[k] = v
